@@ -563,7 +563,13 @@ pub fn main(args: &[String]) {
                 }
             };
             let from_start = scenario == "clock" && g % 4 == 2;
-            walk(&mut tr, &mut rng, &mut gen, start, plies, &scenario, from_start);
+            // the board's own getters are called unguarded while events are written: if one of them panics
+            // (a corrupted history stack), the history ends with a Crash event instead of taking the recorder down
+            if let Err(p) = guarded(|| walk(&mut tr, &mut rng, &mut gen, start, plies, &scenario, from_start)) {
+                writeln!(tr.out, "{}", json!({"ev": "Crash", "panic": p})).unwrap();
+                tr.events += 1;
+                gen = MoveGenerator::new();
+            }
             histories += 1;
         }
     }
